@@ -104,9 +104,9 @@ template<Arch ARCH, uint32_t N, int GROUP>
 static void shuffle() {
   constexpr bool kA64 = ARCH == Arch::kAArch64;
   constexpr uint32_t kSp = kA64 ? 31 : 4, kFp = kA64 ? 29 : 5, kIdMask = kA64 ? 31 : 15;
-  uint32_t n = (nondet_u8() % (N + 1), N);
+  uint32_t n = nondet_u8() % (N + 1);
   constexpr uint32_t g = GROUP;                             // one register group per scenario
-  uint32_t stack_arg = (nondet_u8() & 7, 7);                     // index of the argument that arrives on the stack (>= n: none)
+  uint32_t stack_arg = nondet_u8() & 7;                     // index of the argument that arrives on the stack (>= n: none)
 
   // ---- the function as FuncDetail::init would describe it (sources) and the caller's wishes (destinations)
   FuncDetail& fd = g_fd; fd.reset();
@@ -115,12 +115,12 @@ static void shuffle() {
   FuncArgsAssignment& args = g_args; args.reset(&fd);
   uint32_t src_id[N], dst_id[N]; TypeId src_type[N], dst_type[N], exp_type[N]; bool dst_set[N], on_stack[N];
   uint32_t src_mask = 0, dst_mask = 0; bool dup = false, bad_phys = false;
-  bool has_fp = (nondet_bool(), false);
+  bool has_fp = nondet_bool();
   for (uint32_t i = 0; i < N; i++) {
-    src_id[i] = (nondet_u8() & kIdMask, i); dst_id[i] = (nondet_u8() & kIdMask, (i + 1) % 2);
+    src_id[i] = nondet_u8() & kIdMask; dst_id[i] = nondet_u8() & kIdMask;
     src_type[i] = g ? pick_vec_type() : pick_gp_type();
     dst_type[i] = nondet_bool() ? TypeId::kVoid : (g ? pick_vec_type() : pick_gp_type());
-    dst_set[i] = (nondet_bool(), true); on_stack[i] = i == stack_arg;
+    dst_set[i] = nondet_bool(); on_stack[i] = i == stack_arg;
     if (i >= n) { dst_set[i] = false; continue; }
     RegType srt = g ? (kA64 ? (type_size(src_type[i]) == 4 ? RegType::kVec32 : type_size(src_type[i]) == 8 ? RegType::kVec64 : RegType::kVec128) : RegType::kVec128)
                     : (type_size(src_type[i]) <= 4 ? RegType::kGp32 : RegType::kGp64);
@@ -223,3 +223,29 @@ HARNESS h_shuffle_x64_vec4() { shuffle<Arch::kX64, 4, 1>(); }
 HARNESS h_shuffle_a64_gp3() { shuffle<Arch::kAArch64, 3, 0>(); }
 HARNESS h_shuffle_a64_gp4() { shuffle<Arch::kAArch64, 4, 0>(); }
 HARNESS h_shuffle_a64_vec4() { shuffle<Arch::kAArch64, 4, 1>(); }
+
+HARNESS h_shuffle_probe() {
+  FuncDetail& fd = g_fd; FuncArgsAssignment& args = g_args; FuncFrame& f = g_frame;
+  fd._call_conv.set_arch(Arch::kX64); fd._arg_count = 2;
+  args._func_detail = &fd; args._sa_reg_id = uint8_t(Reg::kIdBad);
+  fd._args[0][0].init_reg(RegType::kGp32, 0, TypeId::kInt32); fd._args[1][0].init_reg(RegType::kGp32, 1, TypeId::kInt32);
+  args._arg_packs[0][0].init_reg(RegType::kGp32, 1, TypeId::kInt32); args._arg_packs[1][0].init_reg(RegType::kGp32, 0, TypeId::kInt32);
+  f._arch = Arch::kX64; f._sp_reg_id = 4; f._sa_reg_id = uint8_t(Reg::kIdBad);
+  f._natural_stack_alignment = 16; f._min_dynamic_alignment = 32; f._final_stack_alignment = 16;
+  f._save_restore_reg_size[RegGroup::kGp] = 8; f._save_restore_alignment[RegGroup::kGp] = 8;
+  f._save_restore_reg_size[RegGroup::kVec] = 16; f._save_restore_alignment[RegGroup::kVec] = 16;
+  f._preserved_regs[RegGroup::kGp] = (nondet_u32() | (1u << 5)) & ~(1u << 4);
+  f._dirty_regs[RegGroup::kGp] = nondet_u32() | 3;
+  Error e1 = args.update_func_frame(f);
+  V_ASSERT(e1 == Error::kOk, "probe update ok");
+  Error ef = f.finalize();
+  tmach::rtok[0][0] = 1; tmach::rtok[0][1] = 2; tmach::rtyp[0][0] = uint8_t(TypeId::kInt32); tmach::rtyp[0][1] = uint8_t(TypeId::kInt32);
+  tmach::frame = &f;
+  BaseEmitter* em = reinterpret_cast<BaseEmitter*>(emitter_mem);
+  em->_gp_signature = OperandSignature{RegTraits<RegType::kGp64>::kSignature};
+  TokenHelper helper(em);
+  Error e2 = helper.emit_args_assignment(f, args);
+  V_ASSERT(e2 == Error::kOk, "probe emit ok");
+  V_ASSERT(tmach::rtok[0][1] == 1 && tmach::rtok[0][0] == 2, "probe swapped");
+  V_WITNESS("probe-end");
+}
